@@ -303,6 +303,38 @@ fn vmess_grid(cx: &mut Cx, rng: &mut Rng) {
             let got = server_accepts(&cfg, &shared, &w);
             cx.decide("vmess-auth-id-timestamp-extreme", &proto.name(), json!({"timestamp": label}), false, got);
         }
+        // a request that arrives slowly: the auth id (first 16 bytes) comes in while the token is fresh, the rest of the
+        // header only after the hooked clock has moved on. A token is honoured only within 120 s of its timestamp: when
+        // the request is finally complete - the moment the server would act on it - a token older than that must not
+        // be honoured any more (and one that is still fresh must be, however slowly the bytes came)
+        for d0 in [0i64, -100, 100, -119] {
+            for adv in [0u64, 10, 100, 121, 130, 300, 3600] {
+                for first in [16usize, 17, 34, 41, 60] {
+                    let mut c = RefClient::new(&cfg, &target, rng, NOW, ClientOpts { timestamp: Some(NOW as i64 + d0), ..Default::default() });
+                    let w = c.write(b"hello", rng);
+                    let k = first.min(w.len() - 1);
+                    let mut srv = real::server_codec(&cfg, &shared).unwrap();
+                    pin_clock(NOW);
+                    let mut b = BytesMut::from(&w[..k]);
+                    let early = drain_server(srv.as_mut(), &mut b, true);
+                    if !early.items.is_empty() {
+                        // the header was complete in the first piece (the server acts on the header alone): decided at the first clock
+                        cx.decide("vmess-slow-request", &proto.name(), json!({"delta_at_first_byte": d0, "first_piece": k, "decided": "with the first piece"}), d0.abs() <= 120, true);
+                        pin_clock(NOW);
+                        continue;
+                    }
+                    let refused_early = early.stop.is_some();
+                    pin_clock(NOW + adv);
+                    b.extend_from_slice(&w[k..]);
+                    let late = drain_server(srv.as_mut(), &mut b, true);
+                    let got = !refused_early && !late.items.is_empty();
+                    let age = (d0 - adv as i64).abs();
+                    // fresh at the first byte (all d0 here are) and fresh at completion: must be accepted; stale at completion: must not
+                    cx.decide("vmess-slow-request", &proto.name(), json!({"delta_at_first_byte": d0, "clock_advanced_by": adv, "first_piece": k, "age_at_completion": age}), age <= 120, got);
+                    pin_clock(NOW);
+                }
+            }
+        }
         // client: response authentication byte, all 256 values; response keyed from another request
         let taddr = to_address(&target);
         let sh = real::client_shared(&cfg).unwrap();
